@@ -43,13 +43,13 @@ def harness_scen(sc, kind=None):
 def check_model(ctx, sc, label, workers=4):
     d = {"MCScript": script_tla(sc["scripts"])}
     invs = "Atomicity NoLostIncrement ReadsExplained"
-    r1 = tlc(ctx, "AtomImpl", "CONSTANTS\n%s\nSPECIFICATION Spec\nINVARIANTS %s\nPROPERTIES Termination Monotone\nCHECK_DEADLOCK FALSE\n" % (consts(sc), invs),
+    r1 = tlc(ctx, "AtomImpl", "CONSTANTS\n%s\nSPECIFICATION Spec\nINVARIANTS %s\nPROPERTIES Termination Monotone RefinesCore\nCHECK_DEADLOCK FALSE\n" % (consts(sc), invs),
              mc_text=mc_module("MC" + label, "AtomImpl", d), mc_name="MC" + label, workers=workers, label="inv" + label)
     if not r1["ok"]:
         raise ToolError("AtomImpl %s violates %s (specification error)\n%s" % (label, r1["violated"], r1["output"][-2500:]))
     if sc["flavor"] == "f64":
         # safety also holds when compare_exchange_weak fails spuriously (not executable on the shimmed code, model only)
-        r2 = tlc(ctx, "AtomImpl", "CONSTANTS\n%s\nSPECIFICATION Spec\nINVARIANTS %s\nPROPERTIES Monotone\nCHECK_DEADLOCK FALSE\n" % (consts(sc, True), invs),
+        r2 = tlc(ctx, "AtomImpl", "CONSTANTS\n%s\nSPECIFICATION Spec\nINVARIANTS %s\nPROPERTIES Monotone RefinesCore\nCHECK_DEADLOCK FALSE\n" % (consts(sc, True), invs),
                  mc_text=mc_module("MCS" + label, "AtomImpl", d), mc_name="MCS" + label, workers=workers, label="spur" + label)
         if not r2["ok"]:
             raise ToolError("AtomImpl %s (spurious CAS failure) violates %s\n%s" % (label, r2["violated"], r2["output"][-2500:]))
@@ -120,6 +120,23 @@ def run_scenario(ctx, pid, exe, sc, label, stats, samples, oracle_mod, oracle_in
                       {"scenario": harness_scen(sc, x["kind"]), "job": {"id": x["id"], "mode": "choices", "choices": x["choices"]}, "history": h, "oracle": [oracle_mod, oracle_inv]})
     stats["histories"] += len(good)
     stats["rejected"] += len(rej)
+
+
+def prove_core(ctx):
+    """TLAPS: Atomicity and at-most-once application proved on the kernel AtomCore for ANY number of threads / scripts.
+    (AtomImpl refines AtomCore: property RefinesCore, checked by TLC in every configuration above.)"""
+    wd = ctx.path("tlaps")
+    os.makedirs(wd, exist_ok=True)
+    shutil.copy(os.path.join(SPEC, "AtomCore.tla"), wd)
+    t0 = time.time()
+    p = sh(["tlapm", "--threads", "8", "AtomCore.tla"], cwd=wd, check=False, timeout=1800)
+    m = re.search(r"All (\d+) obligations? proved", p.stdout)
+    if not m:
+        raise ToolError("TLAPS did not prove AtomCore:\n" + "\n".join(l for l in p.stdout.splitlines() if not l.startswith(("Called from", "Raised")))[-3000:])
+    n = int(m.group(1))
+    ctx.cov["tlaps"] = {"module": "AtomCore", "theorems": ["AtomicityForAnyThreads", "AtMostOnceForAnyThreads"], "obligations": n, "discharged": n, "wall_s": round(time.time() - t0, 1),
+                        "binding": "AtomImpl => AtomCore checked by TLC (PROPERTY RefinesCore) in every model configuration of this run"}
+    log("[tlaps] AtomCore: all %d obligations proved (%.1fs)" % (n, time.time() - t0))
 
 
 def new_stats():
